@@ -368,7 +368,23 @@ class Model(object):
         return (self.eps, self.sig)
 
 
-def _pair_checks(A, B, sa, sb):
+def _hash_fragile(r, digits):
+    """does any quantity the library hashes for this (computed) polygon / polyhedron
+    lie within 5 % of a rounding step of a rounding boundary at `digits`?"""
+    try:
+        faces = [r] if tname(r) == "ConvexPolygon" else list(r.convex_polygons)
+        qs = []
+        for f in faces:
+            n = f.plane.n
+            qs += [n[0], n[1], n[2], n * f.plane.p.pv()]
+            for p in f.points:
+                qs += [p[0], p[1], p[2]]
+        return any(float_near_boundary(float(q), digits, 0.05) for q in qs)
+    except Exception:
+        return True
+
+
+def _pair_checks(A, B, sa, sb, digits=10, tol=1e-9):
     """the J2 observations on a pair: list of (name, outcome, expected-ok predicate)"""
     G = lib()
     t = tname(A)
@@ -417,11 +433,19 @@ def _pair_checks(A, B, sa, sb):
         for nm, x, y in (("inter:f(A,B)", A, B), ("inter:f(B,A)", B, A)):
             r = call(G.intersection, x, y)
             kind_ok = tname(r) == t
+            if kind_ok and t in ("ConvexPolygon", "ConvexPolyhedron") and _hash_fragile(r, digits):
+                # the result is built from a MIXTURE of vertices of A and A': its plane
+                # (normal from whichever three of them come first, offset from whichever
+                # base point) is a computed quantity that admit() cannot bound; when it
+                # lands near a rounding boundary the hash-based == is undecidable by the
+                # property's own standard - the point sets must still coincide
+                ok = same(r, A, tau=tol) and same(r, B, tau=tol)
+                out.append((nm + "~", True if ok else "%s,close:F" % disc(r), True))
+                continue
             e1 = call(lambda a, b: a == b, r, A) if kind_ok else None
             e2 = call(lambda a, b: a == b, r, B) if kind_ok else None
             ok = kind_ok and e1 is True and e2 is True
-            out.append((nm, (tname(r), disc(e1), disc(e2)) if not ok else True, True))
-            out[-1] = (nm, True if ok else "%s,==A:%s,==B:%s" % (disc(r), disc(e1), disc(e2)), True)
+            out.append((nm, True if ok else "%s,==A:%s,==B:%s" % (disc(r), disc(e1), disc(e2)), True))
     return out
 
 
@@ -757,12 +781,18 @@ def _check_near(ctx, step, M, a, b):
         ctx.count("near_unasserted_large_displacement")
         ctx.event(step, "CHECK_NEAR", "unasserted:" + ",".join(disc(r) if not isinstance(r, str) else r for _, r, _ in res))
         return
+    if kk == j - 1 and t in ("ConvexPolygon", "ConvexPolyhedron"):
+        # eps/100: the plane of a result polygon is computed from a mixture of vertices of
+        # A and A'; its amplification is not bounded by admit() at this displacement
+        ctx.count("near_unasserted_eps100_composite")
+        ctx.event(step, "CHECK_NEAR", "unasserted-eps100")
+        return
     ok, why = admit(a["spec"], b["spec"], j)
     if not ok:
         ctx.count("near_inadmissible:" + why)
         ctx.event(step, "CHECK_NEAR", "inadmissible")
         return
-    res = _pair_checks(A, B, a["spec"], b["spec"]) + _cross_checks(A, B, a["spec"], M)
+    res = _pair_checks(A, B, a["spec"], b["spec"], j, 10 * M.eps_float) + _cross_checks(A, B, a["spec"], M)
     ctx.count("J2_pairs")
     ctx.count("J2_pairs:%s:j=%d" % (t, j))
     if a["built"] != M.key() or b["built"] != M.key():
@@ -772,7 +802,7 @@ def _check_near(ctx, step, M, a, b):
     for name, r, want in res:
         ctx.count("J2_assertions")
         if name.endswith("~"):
-            ctx.count("cross_results_near_rounding_boundary")
+            ctx.count("computed_results_near_rounding_boundary")
         ctx.count("cell:%s:%s:j=%d" % (t, name.split(":")[0], j))
         outs.append("T" if r is True else "#")
         if r is True:
